@@ -525,12 +525,21 @@ impl<H: Hal, T: Transport> VirtIOSound<H, T> {
         let mut head = 0;
         // The next element of `statuses` and `tokens` to use for popping the queue.
         let mut tail = 0;
+        // Whether the device reported an error for some buffer. No more buffers are added once
+        // this happens, but the ones already in the queue still borrow `frames` and `statuses`, so
+        // we have to wait for them before returning.
+        let mut failed = false;
 
         loop {
             // Add as buffers to the TX queue if possible. 3 descriptors are required for the 2
             // input buffers and 1 output buffer.
             if self.tx_queue.available_desc() >= 3 {
-                if let Some(buffer) = remaining_buffers.next() {
+                let next_buffer = if failed {
+                    None
+                } else {
+                    remaining_buffers.next()
+                };
+                if let Some(buffer) = next_buffer {
                     // SAFETY: The buffers being added to the queue are non-empty and are not
                     // accessed before the corresponding call to `pop_used`.
                     tokens[head] = unsafe {
@@ -563,7 +572,7 @@ impl<H: Hal, T: Transport> VirtIOSound<H, T> {
                     )?;
                 }
                 if statuses[tail].status != CommandCode::SOk.into() {
-                    return Err(Error::IoError);
+                    failed = true;
                 }
                 tail += 1;
                 if tail >= usize::from(QUEUE_SIZE) {
@@ -575,7 +584,7 @@ impl<H: Hal, T: Transport> VirtIOSound<H, T> {
             spin_loop();
         }
 
-        Ok(())
+        if failed { Err(Error::IoError) } else { Ok(()) }
     }
 
     /// Transfer PCM frame to device, based on the stream type(OUTPUT/INPUT).
